@@ -25,7 +25,19 @@ from . import common, tlc
 def op_alphabet():
     puts = [{"t": "put", "n": n, "b": b, "cond": c} for n in ("a", "b") for b in (2, 3, 5) for c in (0, 1)]
     dels = [{"t": "del", "n": "a", "b": 0, "cond": c} for c in (0, 1)]
-    return puts + dels
+    # a client storing again what the collection already holds under that name (content 1)
+    same = [{"t": "put", "n": "a", "b": 1, "cond": c} for c in (0, 1)]
+    return puts + dels + same
+
+
+def core_pairs():
+    """Pairs that every run includes, whatever the sample: an unchanged re-upload overtaken by a
+    change / a removal of the same member, and the reverse orders."""
+    again = {"t": "put", "n": "a", "b": 1, "cond": 0}
+    change = {"t": "put", "n": "a", "b": 2, "cond": 0}
+    remove = {"t": "del", "n": "a", "b": 0, "cond": 0}
+    cchange = {"t": "put", "n": "a", "b": 3, "cond": 1}
+    return [(again, change), (again, remove), (change, again), (remove, again), (again, cchange), (cchange, again)]
 
 
 READ = {"t": "read", "n": "", "b": 0, "cond": 0}
@@ -48,9 +60,20 @@ def _work(job):
         out = []
         try:
             for (opa, opb) in job["pairs"]:
-                na, _ = rd.count_gates(tmpl, opa)
+                na, ga = rd.count_gates(tmpl, opa)
                 nb, _ = rd.count_gates(tmpl, opb)
                 plans = [[("A", i), ("B", None)] for i in range(0, na + 1)]
+                # two writers of one name: wherever the first one is overtaken before it holds
+                # the lock, the state left behind is also probed by a delete that is conditional
+                # on the etag the collection reports afterwards (and by an unconditional one)
+                extra = []
+                if opa.get("n") and opa.get("n") == opb.get("n"):
+                    lockgate = "LockIndex" if job["kind"] == "tree" else "LockRef"
+                    lockpos = ga.index(lockgate) if lockgate in ga else len(ga)
+                    for i in range(1, lockpos + 1):
+                        for cond in (-1, 0):
+                            extra.append(([("A", i), ("B", None)],
+                                          {"t": "del", "n": opa["n"], "b": 0, "cond": cond}))
                 if job["deep"]:
                     rng = random.Random(job["seed"])
                     for _ in range(job["deep"]):
@@ -66,10 +89,17 @@ def _work(job):
                         opc = {"t": "put", "n": "c", "b": b[pi % len(b)] if b else 5, "cond": 0}
                     elif pi % 3 == 1 and (opa, opb)[(pi // 3) % 2]["n"]:
                         # ... every third one by a delete of a name the overlapped pair wrote to
-                        opc = {"t": "del", "n": (opa, opb)[(pi // 3) % 2]["n"], "b": 0, "cond": 0}
+                        # (every other one conditional on the etag the collection reports for it)
+                        opc = {"t": "del", "n": (opa, opb)[(pi // 3) % 2]["n"], "b": 0,
+                               "cond": -1 if (pi // 6) % 2 else 0}
                     r = rd.run_schedule(tmpl, opa, opb, plan, shared=job["shared"], opc=opc)
                     ts = sorted([opa["t"], opb["t"]])
                     ts = [{"read": "read"}.get(x, x) for x in ts]
+                    r["pair"] = "%s-%s" % (ts[0], ts[1])
+                    out.append(r)
+                for (plan, opc) in extra:
+                    r = rd.run_schedule(tmpl, opa, opb, plan, shared=job["shared"], opc=opc)
+                    ts = sorted([opa["t"], opb["t"]])
                     r["pair"] = "%s-%s" % (ts[0], ts[1])
                     out.append(r)
         finally:
@@ -276,7 +306,7 @@ def run(prop, tier, seed, replay=None):
         if quick:
             # every pair of kinds is kept; within a kind pair a sample of the concrete arguments
             rng.shuffle(pairs)
-            pairs = pairs[:62]
+            pairs = core_pairs() + [p for p in pairs if p not in core_pairs()][:58]
         # a reader overlapping a writer: every write operation with a concurrent full read
         pairs += [(o, READ) for o in (ops if not quick else rng.sample(ops, 8))]
         jobs = []
